@@ -461,7 +461,9 @@ DESC = {"plain": "Fedora 22", "innerquote": "Fedora \"22\" it's", "blanks": "Red
         # a quote at one end only is not "wrapped in quotes"; characters some text APIs take for line ends are not line ends of the file syntax
         "endquote": "Fedora \"21\"", "startquote": "'Twas Fedora 21", "separators": "Fedora 20\x0cServer\x1c\x85 \u2028x",
         # a quote at either end, but not a pair: nothing wraps the text
-        "mixedquotes": "\"Fedora\" 20 'Heisenbug'"}
+        "mixedquotes": "\"Fedora\" 20 'Heisenbug'",
+        # characters that begin a comment or a section in OTHER file syntaxes: a .discinfo is four plain lines
+        "hash": "#1 Fedora 22", "semicolon": "; Fedora [22]"}
 DISCS = {"ALL": ["ALL"], "one": [1], "three": [1, 2, 3], "unsorted": [3, 1, 12]}
 
 
